@@ -65,9 +65,19 @@ def run(ctx):
             impl.append((inp, [int(R.shape[0]), int(R.shape[1])], cells))
     ridge_oracle(ctx, rng, eng)
     detect_oracle(ctx, rng, eng)
+    order_lines(ctx, rng, reqs, impl)
     if ctx.driver_ok:
         rep = common.Driver(ctx).batch(reqs)
-        for r, (inp, shape, cells) in zip(rep, impl):
+        for r, tup in zip(rep, impl):
+            if tup[1] == 'order':
+                inp, _, got = tup
+                m = r.get('ok')
+                if m is None or [m['b'], m['h'], m['t']] != got:
+                    ctx.disagree('C18 order_lines_vertical differs from the model', inp, got, m)
+                else:
+                    ctx.traces_validated += 1
+                continue
+            inp, shape, cells = tup
             m = r.get('ok')
             if m is None or m['shape'] != shape or m['cells'] != cells:
                 ctx.disagree('C18 rotation maps differ (np.rot90 / rotate_layout vs model)', inp, dict(shape=shape, cells=cells[:4]), None if m is None else dict(shape=m['shape'], cells=m['cells'][:4]))
@@ -145,6 +155,51 @@ def ridge_oracle(ctx, rng, eng):
             ctx.nontriv(inp)
         ctx.sample(dict(inp, lines=len(b_list)), limit=3)
         ctx.count('ridge_maps')
+
+
+def order_lines(ctx, rng, reqs, impl):
+    """order_lines_vertical with the jitter under control (random.uniform of the module replaced by a preset stream):
+    the three results stay aligned (oracle) and the order is the model's sort by jittered key (exact)."""
+    from pero_ocr.layout_engines import layout_helpers as helpers
+    import random as _random
+    for it in range(60 if ctx.quick() else 800):
+        n = rng.randrange(0, 8)
+        ys = [rng.choice([10, 10, 20, 30, 30.5, 31, rng.randrange(0, 60)]) for _ in range(n)]
+        jit = [rng.choice([0.001, 0.25, 0.5, 0.75, 0.999, round(rng.uniform(0.001, 0.999), 6)]) for _ in range(n)]
+        keys = [y + j for y, j in zip(ys, jit)]
+        if len(set(keys)) != len(keys):
+            continue      # equal jittered keys: Python would compare the NumPy payloads (probability 0 with real jitter)
+        bs = [np.array([[rng.randrange(0, 100), y], [rng.randrange(100, 200), y]], dtype=float) for y in ys]
+        hs = [[float(i), float(rng.randrange(1, 9))] for i in range(n)]
+        ts = [np.array([[i, 0], [i, 1], [i + 1, 1]], dtype=float) for i in range(n)]
+        stream = list(jit)
+
+        class R:
+            @staticmethod
+            def uniform(a, b):
+                return stream.pop(0)
+        old = helpers.random
+        helpers.random = R
+        try:
+            ob, oh, ot = helpers.order_lines_vertical(list(bs), list(hs), list(ts))
+        except Exception as e:
+            ctx.violation('order-raises:' + type(e).__name__, 'order_lines_vertical raised %r' % (e,), dict(ys=ys, jitter=jit))
+            continue
+        finally:
+            helpers.random = old
+        ctx.evaluations += 1
+        ctx.count('order_lines')
+        ib = [next(i for i, b in enumerate(bs) if b is x) for x in ob]
+        ih = [int(h[0]) for h in oh]
+        itx = [int(t[0, 0]) for t in ot]
+        inp = dict(ys=ys, jitter=jit)
+        if not (ib == ih == itx):
+            ctx.violation('order:misaligned', 'baselines, heights and outlines are ordered differently (a line gets another line\'s heights/outline)',
+                          inp, [ib, ih, itx])
+        if sorted(ib) != list(range(n)):
+            ctx.violation('order:not-a-permutation', 'ordering loses or duplicates lines', inp, ib)
+        reqs.append(dict(p='C18', op='order', keys=[common.rat(k) for k in keys]))
+        impl.append((inp, 'order', [ib, ih, itx]))
 
 
 class StubNet:
